@@ -25,6 +25,35 @@ TRUSTED_BASE = [
 ]
 
 
+# Kani harnesses (kani/in_crate.rs, compiled inside /repo under cfg(kani)); bounded, never counted as proved
+KANI_HARNESSES = {
+    'C02': [('k2_output_array_box_drop_once', 'N = 2, owning payload'), ('k2_future_array_drop_exactly_one', 'N = 2'),
+            ('k2_array_assume_init_identity', 'N = 2, all u16 values')],
+    'C04': [('k2_output_array_write_take_positional', 'N = 3, all u8 values, all write orders')],
+}
+
+
+def run_kani(harnesses):
+    res = []
+    env = dict(os.environ, CARGO_NET_OFFLINE='true', CARGO_TARGET_DIR='/var/tmp/vx-kani-target')
+    for (h, bound) in harnesses:
+        t0 = time.time()
+        try:
+            p = subprocess.run(['cargo', 'kani', '--no-default-features', '--features', 'alloc', '--harness', h],
+                               cwd=G.REPO, env=env, capture_output=True, text=True, timeout=1800)
+            out = p.stdout + p.stderr
+            if 'VERIFICATION:- SUCCESSFUL' in out:
+                st = 'SUCCESSFUL'
+            elif 'VERIFICATION:- FAILED' in out:
+                st = 'FAILED'
+            else:
+                st = 'not run (%s)' % (out.strip().split('\n')[-1][:200] if out.strip() else 'no output')
+        except subprocess.TimeoutExpired:
+            out, st = '', 'not run (timeout 1800 s)'
+        res.append(dict(harness=h, status=st, bound=bound, wall_s=round(time.time() - t0, 1), output=out))
+    return res
+
+
 def load_known():
     res = []
     if not os.path.exists(KNOWN):
@@ -189,6 +218,21 @@ def cmd_check(args):
         suffix = '' if (wit and wit.get('found')) else ' no-failing-input-found'
         out_lines.append('VIOLATION property=%s replay=%s%s' % (prop, rp, suffix))
 
+    # ---- bounded stand-in (thorough tier only): Kani on the real unsafe storage leaves ----
+    bounded = []
+    if tier == 'thorough' and prop in KANI_HARNESSES:
+        bounded = run_kani(KANI_HARNESSES[prop])
+        for b in bounded:
+            if b['status'] == 'FAILED':
+                rp = os.path.join(replay_dir, '%s-kani-%s.json' % (prop, b['harness']))
+                with open(rp, 'w') as fh:
+                    json.dump(dict(property=prop, obligation=['KANI_' + b['harness']], verifier='kani/cbmc (bounded, real crate)',
+                                   verifier_output=b['output'][-6000:]), fh, indent=1)
+                out_lines.append('VIOLATION property=%s replay=%s' % (prop, rp))
+                real.append(dict(unit='kani', cfg='alloc', fn=b['harness'], tags=['KANI_' + b['harness']], message='kani harness failed', line=0))
+            elif b['status'] != 'SUCCESSFUL':
+                undecided.append(dict(kind='tool', message='kani harness %s: %s' % (b['harness'], b['status'])))
+
     n_obl = len(obligations)
     n_ok = sum(1 for o in obligations.values() if o['ok'])
     samples = [dict(obligation=k, clause=v['clause'][:200], discharged=v['ok']) for k, v in list(sorted(obligations.items()))[:12]]
@@ -201,7 +245,8 @@ def cmd_check(args):
             units=[dict(unit=u.name, configs=u.configs) for u in cone],
             files_verified=files, verus_functions_verified=verified_fns,
             functions_under_contract=sorted(set(functions)),
-            by_backend=dict(verus_z3=n_ok, kani_cbmc_complete=0, kani_cbmc_bounded=0),
+            by_backend=dict(verus_z3=n_ok, kani_cbmc_complete=0, kani_cbmc_bounded=sum(1 for b in bounded if b['status'] == 'SUCCESSFUL')),
+            bounded_checks=[dict(harness=b['harness'], status=b['status'], bound=b['bound'], wall_s=b['wall_s']) for b in bounded],
             solver_time_s=round(solver_ms / 1000.0, 2),
             vacuity_twins=dict(expected_refuted=vac_expected, refuted=vac_refuted),
             rewrites=rewrites[:400],
